@@ -1,11 +1,15 @@
 ------------------------------ MODULE MotorRun ------------------------------
 (* C26 - binding of Motor!Law to the program the REAL generator emits.
 
-   A case is one run of the program of a real FastSyncGroup([Motor]) linked to the bundled motor
-   terminal (EL7041) on one frame, executed by the machine of Ebpf.tla.  The harness only says
-   WHERE the quantities live and in which format the real declarations give them (frame offsets
-   found by parsing the assembled frame, map offsets from the instance); their VALUES are read
-   here from the memory the program starts on, and the expected command is computed here.
+   A case is one run of the program of a real FastSyncGroup([Motor]) linked to a bundled motor
+   terminal (EL7041, a channel of the EL7332 or of the EL7062; the encoder may sit on another
+   terminal) on one frame, executed by the machine of Ebpf.tla.  The harness only says WHERE the
+   quantities live and WHAT they are: for the device variables the format the Motor class declares,
+   for the frame the device's own object dictionary (frame offsets found by parsing the assembled
+   frame; the velocity output and the position are signed two's-complement numbers of the mapped
+   width - the law speaks of +/- the velocity limit - whatever format the terminal class under
+   test gives them).  Their VALUES are read here from the memory the program starts on, and the
+   expected command is computed here.
 
    case = EbpfRun's case record plus
      mot |-> [fd      map number of the group's `properties` array map,
@@ -42,16 +46,19 @@ VelOut(k, f) == Bytes(f.m[RPkt], k.mot.vel)
 EnableOut(k, f) == Bit(f.m[RPkt], k.mot.en)
 
 (* ---- the requirement ------------------------------------------------------------------- *)
-(* the program runs to its exit and the velocity output holds exactly Law(inputs) *)
-Commanded(k, in, f) ==
-    PreOf(k, in) => /\ Exited(f.c)
-                    /\ WFitsS(LawOf(in), k.mot.vel.n)
-                    /\ VelOut(k, f) = WTrunc(LawOf(in), k.mot.vel.n)
+(* the program runs to its exit and the velocity output holds exactly Law(inputs);
+   pre = PreOf(k, in) and law = LawOf(in) are passed in so that TLC evaluates them once *)
+CommandedL(k, f, pre, law) ==
+    pre => /\ Exited(f.c)
+           /\ WFitsS(law, k.mot.vel.n)
+           /\ VelOut(k, f) = WTrunc(law, k.mot.vel.n)
+Commanded(k, in, f) == CommandedL(k, f, PreOf(k, in), LawOf(in))
 (* the enable bit of the terminal follows set_enable *)
 EnableFollows(k, in, f) == Exited(f.c) /\ (EnableOut(k, f) <=> ~WIsZero(in.sen))
 (* the consequences the property draws, on these inputs (theorem of Motor, no run involved) *)
-LawTheorems(k, in) ==
-    PreOf(k, in) => Consequences(LawOf(in), in.acc, in.vmax, in.prev, in.low, in.high)
+LawTheoremsL(in, pre, law) ==
+    pre => Consequences(law, in.acc, in.vmax, in.prev, in.low, in.high)
+LawTheorems(k, in) == LawTheoremsL(in, PreOf(k, in), LawOf(in))
 
 InvCommanded == Commanded(K, In(K), Final(K))
 InvEnable == EnableFollows(K, In(K), Final(K))
@@ -59,9 +66,9 @@ InvTheorems == LawTheorems(K, In(K))
 
 (* verdict collection (always TRUE): one line per case, so one TLC run reports every failing case.
    accfits: does the acceleration-limited intermediate value fit the output (diagnosis only)   *)
-Verdict(k, in, f) ==
-    PrintT(<<"VERDICT", cid, PreOf(k, in), Commanded(k, in, f), EnableFollows(k, in, f),
-             LawTheorems(k, in), f.c.st, VelOut(k, f), WTrunc(LawOf(in), k.mot.vel.n),
+Verdict(k, in, f, pre, law) ==
+    PrintT(<<"VERDICT", cid, pre, CommandedL(k, f, pre, law), EnableFollows(k, in, f),
+             LawTheoremsL(in, pre, law), f.c.st, VelOut(k, f), WTrunc(law, k.mot.vel.n),
              WFitsS(AccLimited(DesiredOf(in), in.acc, in.prev), k.mot.vel.n)>>)
-Observe == Verdict(K, In(K), Final(K))
+Observe == Verdict(K, In(K), Final(K), PreOf(K, In(K)), LawOf(In(K)))
 =============================================================================
